@@ -3,9 +3,16 @@
 //
 // Three case kinds (T = int; a value is key*1000 + tag, the tag makes ties distinguishable):
 //
-//	@ C04 slice <cmp> v…     Slice[int] from FromSlice          ops: push pop peek len rm fix set setfix popall popalln
-//	@ C04 heap <cmp>         two Heap[int] A, B from New(0,·)   ops: init initc push pushe pop peek len rm fix setv setfix popall popalln
+//	@ C04 slice <cmp> v…     Slice[int] from FromSlice          ops: push pop peek len rm fix set setfix popall popalln seq range rangeall
+//	@ C04 slicen <cmp> <cap> Slice[int] from NewSlice(cap,·)    ops: as slice
+//	@ C04 heap <cmp> [<capA> <capB> [zv]]   two Heap[int] A, B from New(cap,·) (zv: zero values, Init comes first)
+//	                                        ops: init initc push pushe pop peek len rm fix setv setfix popall popalln seq range rangeall copyrm copyfix
 //	@ C04 generic <cmp> v…   generic functions on a recording container   ops: init push pop rm fix set
+//
+// `seq [A|B]` is `q := h.PopAll()` kept in the next slot (0,1,2…); `range <slot> <k>` / `rangeall <slot>` range
+// over the STORED q like popalln / popall do over a fresh one (a Seq is the heap's identity: every range
+// pops from what the heap holds then). `copyrm/copyfix <A|B> <e>` = `c := *h; c.Remove(e)` / `c.Fix(e)`:
+// a copy is another Heap object, every handle is foreign to it, nothing may change.
 //
 // `popalln [A|B] <k>` (k >= 1) is `for x := range PopAll() { got = append(got, x); if len(got) == k { break } }`:
 // the consumer leaves the loop early (the model: k Pops, stopping at the first empty answer).
@@ -60,17 +67,24 @@ func init() {
 			"keys from {0..5} (many ties, tags make equal keys distinguishable), in part all keys equal / two keys / 0..60; 0..9 elements, one case in ten 10..40; comparators lt/gt/key/rkey; " +
 			"PopAll drained and left early after k elements (popalln, k aimed at 1, n/2, n-1, n, n+3); stream `large` (1.5% of the cases in quick, 0.5% in thorough): the container is created with 63/64/65/100/127/128/129/200/255/256/257/500/999/1000/1001/1024/1025/2000 elements and gets <= 10 ops (early-left PopAll with small and large k, Pop/Push/Remove/Fix at root, last slot, middle); " +
 			"handle ops 85% live (aimed at the last slot, the root, removals whose substitute moves up), 10% stale (popped/removed/discarded by Init), 5% of the other heap; indices -1..len; " +
+			"wave 4: heaps made by New(cap,·) with cap from {0,1,2,3,7,8,9,64,100} (pushes cross it while handles are held; in `large` 63/64/100 crossed by 63..129 pushes) or as zero values + Init, slices by NewSlice(cap,·) (`slicen`); Seq values (`seq` = q := PopAll()) made early (45% of the heap cases, 40% of the slice cases, 60% of the large ones) and ranged over late (`range`/`rangeall` on the stored q): again, after an early break, after push/pushe/rm/setfix, after Init of that heap with the same / another comparator (an Init of a heap with a held Seq is followed by a range over it 70% of the time), while the other heap changes; Remove/Fix on a struct copy of a heap (`copyrm`/`copyfix`, handle 85% live in the original); a handle discarded by an Init with another comparator is re-pushed into the OTHER heap (75% of those Inits) and then removed/fixed/popped there; " +
 			"non-trivial = at least 5 ops including a Remove or Fix; distinct by hash of the op list",
 		Classify: classify,
 		Parallel: true,
 		Extras: []core.Extra{
 			{Name: "popall-early-stop", Run: extraEarlyStop},
+			{Name: "seq-reuse", Run: extraSeqReuse},
+			{Name: "independent-objects", Run: worldExtra("independent-objects")},
+			{Name: "results-ledger", Run: worldExtra("results-ledger")},
+			{Name: "generic-after-panic", Run: extraGenericAfterPanic},
 		},
 		Assumptions: []string{
 			"Go int treated as unbounded (the `j1 < 0` overflow guard of down is never taken)",
 			"PushElement is reached through Push and with handles that are in no heap (popped / removed / discarded by Init); an element still in a heap is undocumented misuse",
 			"the capacity region of Slice.Values beyond len (zeroed by Pop/Remove) is not observed",
-			"generic functions: an index outside the container panics inside the caller's Swap/Less (container/heap semantics); the oracle does not judge those calls",
+			"generic functions: an index outside the container panics inside the caller's Swap/Less (container/heap semantics); the oracle does not judge those calls (Extra generic-after-panic: the container's data is unchanged by such a call and later valid calls behave per the reference)",
+			"a zero Heap is used only after Init; struct copies of NON-EMPTY heaps / of heaps with spare capacity share the backing array by Go slice semantics: on those only Len/Peek and Remove/Fix with the original's handles (foreign to the copy: ignored) are called; copies of empty capacity-0 heaps are used as independent objects",
+			"comparators are strict weak orders that do not panic (nothing is promised after a comparator panic)",
 		},
 	})
 }
@@ -103,7 +117,7 @@ func gen(r *core.Rand, tier string) core.Case {
 
 func impl(c core.Case) []string {
 	switch kind(c) {
-	case "slice":
+	case "slice", "slicen":
 		return implSlice(c)
 	case "heap":
 		return implHeap(c)
@@ -119,7 +133,7 @@ func impl(c core.Case) []string {
 
 func check(c core.Case, out []string) *core.Failure {
 	switch kind(c) {
-	case "slice":
+	case "slice", "slicen":
 		return checkSlice(c, out)
 	case "heap":
 		return checkHeap(c, out)
@@ -134,7 +148,7 @@ func classify(c core.Case, out []string) []string {
 	if c.Tag == "large" {
 		// which branches the BIG containers took
 		for _, l := range ls {
-			if len(l) > 2 && l[1] == ':' && (strings.Contains(l, ":rm") || strings.Contains(l, ":fix") || strings.Contains(l, ":setfix") || strings.Contains(l, ":push:") || strings.Contains(l, ":popalln:") || strings.Contains(l, ":popall:")) {
+			if len(l) > 2 && l[1] == ':' && (strings.Contains(l, ":rm") || strings.Contains(l, ":fix") || strings.Contains(l, ":setfix") || strings.Contains(l, ":push:") || strings.Contains(l, ":popalln:") || strings.Contains(l, ":popall:") || strings.Contains(l, ":range") || strings.Contains(l, ":seq") || strings.Contains(l, ":copy")) {
 				ls = append(ls, "large:"+l)
 			}
 		}
@@ -145,6 +159,14 @@ func classify(c core.Case, out []string) []string {
 func classifyCase(c core.Case, out []string) []string {
 	k := kind(c)
 	ls := []string{k}
+	if k == "slicen" {
+		// NewSlice(cap, ·): a slice case that starts empty
+		k = "slice"
+		ls = []string{k, "s:newslice"}
+		if h := core.Toks(c.Lines[0]); len(h) == 5 && h[4] != "0" {
+			ls = append(ls, "s:newslice:cap>0")
+		}
+	}
 	if h := core.Toks(c.Lines[0]); len(h) >= 4 {
 		ls = append(ls, "cmp:"+h[3])
 	}
@@ -189,6 +211,12 @@ func classifyCase(c core.Case, out []string) []string {
 	prev, _ := arrOf(out[0])
 	maxLen := len(prev)
 	ls = append(ls, p+"n0="+sizeBucket(len(prev)))
+	// Seq slots (slice kind): when made, how often ranged over, whether the last range was left early
+	type seqInfo struct {
+		made, ranged, partial int
+		lastPartial, mutated  bool
+	}
+	var seqs []*seqInfo
 	for i := 1; i < len(c.Lines) && i < len(out); i++ {
 		t := core.Toks(c.Lines[i])
 		if len(t) == 0 {
@@ -205,6 +233,58 @@ func classifyCase(c core.Case, out []string) []string {
 			continue
 		}
 		n := len(prev)
+		opName := t[0]
+		if k == "slice" && ((t[0] == "range" && len(t) == 3) || (t[0] == "rangeall" && len(t) == 2)) {
+			sl, ok := slotOf(t[1], len(seqs))
+			if !ok {
+				continue
+			}
+			q := seqs[sl]
+			if q.ranged > 0 {
+				ls = append(ls, p+"range:again")
+			}
+			if q.lastPartial {
+				ls = append(ls, p+"range:after-break")
+			}
+			if q.mutated {
+				ls = append(ls, p+"range:after-mutation")
+			}
+			if i-q.made >= 6 {
+				ls = append(ls, p+"range:held>=6-ops")
+			}
+			if n >= 64 {
+				ls = append(ls, p+"range:n>=64")
+			}
+			if n == 0 {
+				ls = append(ls, p+"range:empty")
+			}
+			q.ranged++
+			q.lastPartial = len(cur) > 0
+			if q.lastPartial {
+				q.partial++
+				if q.partial >= 2 {
+					ls = append(ls, p+"range:partial-again")
+				}
+			}
+			if t[0] == "range" {
+				t = []string{"popalln", t[2]}
+			} else {
+				t = []string{"popall"}
+			}
+		} else if k == "slice" {
+			switch t[0] {
+			case "seq":
+				seqs = append(seqs, &seqInfo{made: i})
+				ls = append(ls, p+"seq:n="+sizeBucket(n))
+				if len(seqs) >= 2 {
+					ls = append(ls, p+"seq:several-held")
+				}
+			case "push", "pop", "rm", "setfix", "set":
+				for _, q := range seqs {
+					q.mutated = true
+				}
+			}
+		}
 		switch t[0] {
 		case "rm", "fix":
 			if tail(out[i]) == tail(out[i-1]) {
@@ -254,16 +334,16 @@ func classifyCase(c core.Case, out []string) []string {
 				}
 			}
 		case "popall":
-			ls = append(ls, p+"popall:n="+sizeBucket(n))
+			ls = append(ls, p+opName+":n="+sizeBucket(n))
 		case "popalln":
-			ls = append(ls, p+"popalln:n="+sizeBucket(n))
+			ls = append(ls, p+opName+":n="+sizeBucket(n))
 			if stop, ok := atoi(t[len(t)-1]); ok {
-				ls = append(ls, p+"popalln:"+stopLabel(stop, n))
+				ls = append(ls, p+opName+":"+stopLabel(stop, n))
 			}
 			if len(cur) > 0 {
-				ls = append(ls, p+"popalln:partial")
+				ls = append(ls, p+opName+":partial")
 				if n >= 64 {
-					ls = append(ls, p+"popalln:partial:n>=64")
+					ls = append(ls, p+opName+":partial:n>=64")
 				}
 			}
 		}
@@ -390,6 +470,15 @@ func smallCorpus() []core.Case {
 		{Lines: []string{"@ C04 heap lt", "init A 5 5 5 5 5 5 5 5 5 5 5 5 5 5 5 5 5 5 5 5", "rm A 7", "rm A 19", "pop A", "setfix A 3 5", "pushe A 7", "rm A 0", "fix A 12", "len A", "popall A"}},
 		// depth 5: the root sinks to a leaf, a leaf climbs to the root, removal in the middle
 		{Lines: []string{"@ C04 heap gt", "init A 1 2 3 4 5 6 7 8 9 10 11 12 13 14 15 16 17 18 19 20 21 22", "peek A", "setfix A 21 0", "setfix A 0 99", "rm A 10", "rm A 4", "pop A", "setfix A 15 50", "rm A 15", "pop A", "pop A", "len A", "popall A"}},
+		// wave 4: zero-value heaps + Init; a Seq made early and ranged over again and again: after an
+		// early break, after pushes, after an Init with another comparator, while the other heap changes
+		{Lines: []string{"@ C04 heap lt 3 0 zv", "init A 5 3 8", "init B", "seq A", "range 0 1", "push A 1", "push B 9", "range 0 1", "seq B", "initc A gt 7 9 4", "range 0 1", "rm A 7", "range 1 1", "pushe B 1", "range 1 1", "rangeall 0", "push A 2", "rangeall 0", "rangeall 1", "len A", "len B"}},
+		// capacities crossed while handles are held; Remove / Fix on a struct copy (every handle is foreign to it)
+		{Lines: []string{"@ C04 heap key 2 1", "push A 3000", "push A 1001", "copyrm A 1", "push A 2002", "copyfix A 0", "push B 5003", "push B 4004", "copyrm A 4", "copyrm B 4", "pop A", "copyrm A 1", "copyfix A 1", "setv 0 0", "copyfix A 0", "fix A 0", "copyrm A 0", "rm A 0", "len A", "popall A", "popall B"}},
+		// a handle from before an Init with another comparator goes into the OTHER heap and is used there
+		{Lines: []string{"@ C04 heap lt 1 1", "init A 5 3 8", "push B 4", "initc A gt 1 2 6", "pushe B 1", "rm A 1", "fix A 0", "setfix B 1 9", "setfix B 1 0", "peek B", "pushe B 0", "pushe A 2", "peek A", "rm B 0", "pop B", "pop B", "rm B 1", "popall A", "popall B"}},
+		{Lines: []string{"@ C04 slicen lt 2", "seq", "pop", "range 0 1", "push 3", "push 1", "push 2", "range 0 1", "push 0", "range 0 1", "seq", "range 1 5", "range 0 1", "push 7", "push 6", "setfix 1 0", "range 0 1", "rm 0", "rangeall 1", "rangeall 0", "len"}},
+		{Lines: []string{"@ C04 slice rkey 1000 3001 2002 3003 1004", "seq", "seq", "range 0 2", "range 1 1", "push 5005", "range 0 1", "range 1 9", "push 1", "rangeall 0"}},
 		{Lines: []string{"@ C04 slice lt 1 10 2 11 12 3 4", "rm 3", "rm 5", "rm 0", "pop", "pop", "pop", "len", "pop", "pop", "push 8", "rm 0", "rm 0"}},
 		{Lines: []string{"@ C04 slice gt 1 2 3 4 5 6 7 8 9 10 11 12 13 14 15 16 17 18 19 20 21 22", "set 0 0", "fix 0", "set 21 99", "fix 21", "rm 10", "rm 4", "pop", "setfix 0 -5", "setfix 18 77", "setfix 3 8", "set 2 1000", "setfix 2 15", "popall", "push 1", "setfix 0 2", "pop"}},
 		{Lines: []string{"@ C04 generic lt 1 10 2 11 12 3 4", "init", "rm 3", "rm 5", "rm 0", "pop", "pop", "pop", "pop", "push 8", "rm 0"}},
